@@ -253,6 +253,18 @@ Section Gen.
       intros m Hm. destruct (bad required upgrade m) eqn:B; auto.
       assert (false = true) by (apply ER; eauto). discriminate.
   Qed.
+
+  (** the reachable set is a finite list *)
+  Lemma greach_listable N : (forall n, R n -> In n N) ->
+    exists Nl, NoDup Nl /\ forall n, In n Nl <-> R n.
+  Proof.
+    intros HN.
+    assert (Hf' : (length N + length [target] < S (length N) + length [target])%nat) by (simpl; lia).
+    destruct (explore_inv required upgrade pick target N HN (S (length N)) [target] [target] (select [] target) false inv_init Hf')
+      as (seen' & sel' & err' & E & I).
+    exists seen'. split; [apply (i_nodup _ _ _ _ _ _ _ I)|]. intros n. split; [apply (i_reach _ _ _ _ _ _ _ I)|].
+    induction 1; [apply (i_root _ _ _ _ _ _ _ I)|]. eapply (i_closed _ _ _ _ _ _ _ I); eauto.
+  Qed.
 End Gen.
 
 (** ** BuildList without an upgrade callback: reachability is the specification's *)
